@@ -484,8 +484,14 @@ def evaluate(ctx, cases):
         it = Intern()
         typed = model_jv(c['tree'], it, c['schema']['root'])
         seqs = [child_seq(n, it) for n in all_nodes(c['tree'])]
-        terms.append('(jml_decode (%s), map (fun l => (contiguous nat l, map (fun kv => (fst kv, length (snd kv))) (group nat l))) %s)'
-                     % (coq_xml(typed, it, True), coq_list([coq_list(['(%s, %d%%nat)' % (coq_N(k), i) for k, i in s]) for s in seqs])))
+        rt = c['schema']['root']['type']
+        singles = [it(p['name']) for p in rt['parts'] if rt['comp'] == 'sequence' and p['max'] == 1]
+        terms.append('(jml_decode (%s), map (fun l => (contiguous nat l, map (fun kv => (fst kv, length (snd kv))) (group nat l))) %s, '
+                     'map (fun ki => (fst ki, match snd ki with One _ => 0%%nat | Many vs => length vs end)) '
+                     '(decode_children nat (fun k => memb k %s) false %s))'
+                     % (coq_xml(typed, it, True), coq_list([coq_list(['(%s, %d%%nat)' % (coq_N(k), i) for k, i in s]) for s in seqs]),
+                        coq_list([coq_N(k) for k in singles]),
+                        coq_list(['(%s, %d%%nat)' % (coq_N(k), i) for k, i in seqs[0]])))
         aux.append(it)
     model = common.coq_eval('C05', IMPORTS, DEFS, terms, shard=25)
     for c, o, m, it in zip(cases, impl, model, aux):
@@ -496,7 +502,7 @@ def evaluate(ctx, cases):
         if not o['valid']:
             ctx.violation('generated instance is not valid (generator or validator defect): %s for %s' % (o['errors'], c['xml'][:300]), rep, no_input=True)
             continue
-        mjv, groups = m
+        mjv, groups, rootshape = m
         contiguous = all(g[0] for g in groups) and sequence_models(c['tree'], c['schema']['root'])
         mixed_text = has_mixed_text(c['tree'])
         ctx.dist('instance', 'sequence models, contiguous names' if contiguous else 'repeated choice / non-contiguous names')
@@ -517,6 +523,13 @@ def evaluate(ctx, cases):
             if [k for k, _ in keys] != [k for k, _ in want]:
                 ctx.violation('key order of the default convention %s differs from group %s for %s' % (keys, want, c['xml'][:200]),
                               dict(rep, theorem='C05_group_roundtrip_iff'))
+            # single value vs list per child, as decode_children predicts (list-typed values are lists anyway: skipped)
+            got_shape = [(k.split(':')[-1], len(v) if isinstance(v, list) else 0) for k, v in dd.items()
+                         if not k.startswith('@') and k != '$' and not list_typed(c, k.split(':')[-1])]
+            want_shape = [(name_of(it, k), n) for k, n in rootshape if not list_typed(c, name_of(it, k))]
+            if got_shape != want_shape:
+                ctx.violation('default convention stores the children as %s, decode_children predicts %s for %s'
+                              % (got_shape, want_shape, c['xml'][:200]), dict(rep, theorem='C05_children_roundtrip'), no_input=True)
         for cname, r in o['conv'].items():
             lossless_here = (cname in ORDER_FREE or contiguous) and (cname in KEEPS_CDATA or not mixed_text)
             ctx.count(('rt', c['seed'], c['version'], cname), nontrivial=lossless_here)
@@ -568,6 +581,20 @@ def kind_of(d, name):
             if r:
                 return r
     return None
+
+
+def list_typed(c, name):
+    def find(d):
+        if d['name'] == name:
+            return d
+        if d['type']['k'] == 'cx':
+            for p in d['type']['parts']:
+                r = find(p)
+                if r:
+                    return r
+        return None
+    d = find(c['schema']['root'])
+    return bool(d) and d['type']['k'] in ('simple', 'sc') and d['type']['base'] in ('ilist', 'dlist')
 
 
 def is_simple_list(c, name):
